@@ -117,7 +117,29 @@ def gen_cases(fmt, tier):
             if c is not None:
                 ar_, exp_, line_ = c
                 cases.append((ar_, exp_, f"{idx:>5d}" + line_[5:]))
+    # markers in the product columns (the emitted photon of a radiative association, RATE12's ":RA:C+:C3:C4+:PHOTON:"):
+    # every marker token of the format, at every product position
+    for marker in PRODUCT_MARKERS[fmt]:
+        for pos in range(0, 3):
+            p = ["CH2+", "H"][: max(pos, 1)]
+            p = p[:pos] + [marker] + p[pos:]
+            if len(p) > LIMITS[fmt][1]:
+                continue
+            c = mk(fmt, ["C+", "H2"], p, 1e-10, 0.0, 0.0, 10, 300, 6043 + pos, code0, None)
+            if c is not None:
+                c[1]["products"] = sorted(x for x in p if x != marker)
+                cases.append(c)
     return [c for c in cases if c is not None]
+
+
+PRODUCT_MARKERS = {
+    "kida": ["Photon", "CR"],
+    "umist": ["PHOTON", "CRP", "CRPHOT"],
+    "leeds": ["PHOTON", "CRP", "CRPHOT", "XRAY"],
+    "uclchem": ["PHOTON", "CRP", "CRPHOT", "NAN"],
+    "naunet": ["PHOTON", "CR", "CRPHOT"],
+    "krome": [],
+}
 
 
 def mk(fmt, r, p, a, b, c, lo, hi, idx, code, marker):
